@@ -27,7 +27,8 @@
 enum { KEEP_IF_SAME = 1,   // the command leaves an output whose content would not change untouched (what restat rules are for)
        HALVE = 2,          // the command's result depends on its inputs only through content/2 (so that some edits do not change it)
        ALWAYS_FAILS = 4,
-       EXPECT_CYCLE = 8 };  // by the manifest text this statement lies on a dependency cycle (expectation independent of ninja's own parse)
+       EXPECT_CYCLE = 8,
+       NONCANONICAL_DEPFILE = 16 };  // the command spells the extra files it read as ./name in its depfile (compilers do, for -I. includes)  // by the manifest text this statement lies on a dependency cycle (expectation independent of ninja's own parse)
 struct CmdSpec {
   const char* out;            // first output of the statement this entry describes
   const char* extra_reads;    // files the command reads beyond its declared explicit/implicit inputs; it reports them (depfile / deps / dyndep)
@@ -54,7 +55,8 @@ struct Tree {
   std::vector<std::string> log;        // every DiskInterface mutation, for the monitors
   Tree() : now(1) {}
   TimeStamp tick() { return ++now; }
-  VFile* find(const std::string& n) { for (size_t i = 0; i < files.size(); i++) if (files[i].name == n) return &files[i]; return NULL; }
+  VFile* find(const std::string& n0) { std::string n = n0; while (n.compare(0, 2, "./") == 0) n = n.substr(2);      // the file system resolves ./x to x
+    for (size_t i = 0; i < files.size(); i++) if (files[i].name == n) return &files[i]; return NULL; }
   VFile* get(const std::string& n) { VFile* f = find(n); if (f) return f; VFile nf; nf.name = n; nf.exists = false; nf.mtime = 0; nf.content = 0; nf.is_text = false; files.push_back(nf); return &files.back(); }
   bool exists(const std::string& n) { VFile* f = find(n); return f && f->exists; }
   void write(const std::string& n, long content) { VFile* f = get(n); f->exists = true; f->content = content; f->mtime = tick(); f->is_text = false; }
@@ -294,7 +296,8 @@ struct SymRunner : public CommandRunner {
     }
     std::vector<std::string> reads = read_set(e);
     std::string dep = e->GetUnescapedDepfile();
-    if (!dep.empty()) { std::string t = e->outputs_[0]->path() + ":"; for (size_t q = 0; q < reads.size(); q++) t += " " + reads[q]; t += "\n"; g_tree->write_text(dep, t); }
+    if (!dep.empty()) { std::string t = e->outputs_[0]->path() + ":"; size_t nd = reads.size(); for (size_t z = 0; z < g_ref.size(); z++) if (g_ref[z].ordinal == ord) nd = g_ref[z].ndeclared;
+      for (size_t q = 0; q < reads.size(); q++) t += ((r.flags & NONCANONICAL_DEPFILE) && q >= nd ? " ./" : " ") + reads[q]; t += "\n"; g_tree->write_text(dep, t); }
     if (opt.prints_output && !e->use_console() && verif_bool("command_prints")) { output += "<<out " + e->outputs_[0]->path() + ">>\npart two of " + e->outputs_[0]->path() + "\n"; events.push_back("printed " + e->outputs_[0]->path()); }
     if (e->GetBinding("deps") == "msvc") { for (size_t q = 0; q < reads.size(); q++) output += "Note: including file: " + reads[q] + "\n"; }
     if (ord < 16) { g_last[ord].ran = true; g_last[ord].snap = r.snap; g_last[ord].command = e->EvaluateCommand(true); }
